@@ -195,13 +195,13 @@ fn strat(t: Tier) -> proptest::strategy::BoxedStrategy<ValidCase> {
 
 pub fn def() -> PropertyDef {
     PropertyDef {
-        fuzz_targets: &[],
+        fuzz_targets: &["c01_scenario"],
         id: "C03",
         level: "exploration",
         rule: "timelines in ticks (+ sub-tick jitter up to 0.49 tick) or computed as i/fps like a caller (incl. 1001-rates), VFR gaps 1 tick..2^32-1, \
                non-zero starts, reorderings with positive and negative composition offsets; stts/ctts/mdhd read back and compared with exact \
                integer tick arithmetic; non-trivial = >=3 samples with >=2 distinct deltas, or a 1001-rate, or reordering, or more than 1 024 samples",
         assumptions: &["half-tick ties (exact product within 2 ulp of .5) are accepted either way and counted as unconstrained"],
-        subs: vec![Box::new(PSub { name: "timing", quick: 30000, thorough: 800000, strat, eval }), Box::new(LSub { name: "long_recordings", cases: long_cases_all, eval, note: LONG_NOTE })],
+        subs: vec![Box::new(PSub { name: "timing", quick: 30000, thorough: 800000, strat, eval }), Box::new(PSub { name: "totals_near_2^32", quick: 6000, thorough: 150000, strat: crate::props::c16::timeline_strategy, eval }), Box::new(LSub { name: "long_recordings", cases: long_cases_all, eval, note: LONG_NOTE })],
     }
 }
